@@ -214,6 +214,7 @@ func (g *gen) setup() {
 	g.op(fmt.Sprintf("cfg\trefreshScopes=%s\tscope=%s\taud=%s\tcodeLife=%d\tatLife=%d\trtLife=%d\tpkce=%s\tpkcePublic=%s\tplain=%s\tnoRtIntrospect=%s\tdeviceLife=%d\tparLife=%d\tenforcePAR=%s\tdevMark=%s",
 		encListS(refreshScopes), scopeStrat, audStrat, codeLife, atLife, rtLife, g.cfg["pkce"], g.cfg["pkcePublic"], g.cfg["plain"], b01(r.Intn(5) == 0),
 		deviceLife, parLife, b01(g.cfgPAR), b01(r.Intn(2) == 0 || (g.bias == "C16" && r.Intn(3) != 0)))+
+		"\tjwt="+b01(r.Intn(3) == 0)+ // access tokens are JWTs in a third of the histories
 		"\ttx="+b01(g.bias != "C19" && (r.Intn(4) == 0 || (g.bias == "C18" && r.Intn(3) != 0)))) // (no transactions under `par`: a snapshot store has no meaning for interleaved requests)
 	allScopes := []string{"offline", "openid", "a", "b.c", "rt", "offline_access"}
 	if scopeStrat == "wildcard" {
